@@ -327,6 +327,13 @@ def r6_reflection_guard(cx):
                 c = op_const(arg)
                 table["const"] = c
                 continue
+            # follow plain copies to the local that is assigned the constants on the two arms
+            for _ in range(8):
+                sd = defuse(body).single_def(l)
+                if sd and sd[0] == "stmt" and sd[3]["rv"]["k"] == "use" and op_local(sd[3]["rv"]["op"]) is not None and not op_place(sd[3]["rv"]["op"]).get("p"):
+                    l = op_local(sd[3]["rv"]["op"])
+                else:
+                    break
             for d in defuse(body).defs.get(l, []):
                 if d[0] == "stmt" and d[3]["rv"]["k"] == "use":
                     c = op_const(d[3]["rv"]["op"])
